@@ -113,7 +113,7 @@ SPEC = r"""
             (!arity_ok(f.0.0, c.0@.len() as int) ==> r is Err
                 && (r->Err_0 matches Error::AtLoc{source, line, col} && line == *loc.0 && col == *loc.1
                     && (if f.0.0.collect_args { *source == Error::TooFewArgs{minimum: (f.0.0.args@.len() - 1) as usize, got: c.0@.len() as usize} }
-                        else { *source == Error::ArgNumMismatch{need: f.0.0.args@.len() as usize, got: c.0@.len() as usize} })))), // [C13:argument_count_must_be_exactly_n_or_at_least_n_minus_1_with_a_rest_parameter]
+                        else { *source == Error::ArgNumMismatch{need: f.0.0.args@.len() as usize, got: c.0@.len() as usize} })))), // [C13_C18:argument_count_must_be_exactly_n_or_at_least_n_minus_1_with_a_rest_parameter_and_the_error_is_at_the_call_expression]
         callee_of(old(scopes).world(), args@, *func) matches Some(c) ==> (c.1.v matches Value::Func(f) ==>
             (arity_ok(f.0.0, c.0@.len() as int) ==> exists|bs: Seq<(Expr, SourcedValue)>|
                 #[trigger] bindings_ok(bs, f.0.0, c.0@, c.1.source)
@@ -121,7 +121,7 @@ SPEC = r"""
         callee_of(old(scopes).world(), args@, *func) matches Some(c) ==> (c.1.v matches Value::BuiltinFunc{name, f} ==>
             (match sem_builtin(f, this_of(c.1.source), c.0@) { Ok(v) => r == Ok::<SourcedValue, Error>(v), Err(_) => r is Err })), // [C14:builtin_receives_the_arguments_and_the_source_as_this]
         callee_of(old(scopes).world(), args@, *func) matches Some(c) ==> (!(c.1.v is Func) && !(c.1.v is BuiltinFunc) ==>
-            r is Err && (r->Err_0 matches Error::AtLoc{source, line, col} && line == *loc.0 && col == *loc.1 && *source is CannotCallNonFunc)), // [C16:calling_a_non_function_is_a_type_error_at_the_call]
+            r is Err && (r->Err_0 matches Error::AtLoc{source, line, col} && line == *loc.0 && col == *loc.1 && *source is CannotCallNonFunc)), // [C16_C18:calling_a_non_function_is_a_type_error_at_the_call]
         r matches Err(e) ==> located(e), // [C17:call_errors_are_located]
 """
 
